@@ -695,6 +695,7 @@ func runRegHistoryTd(r *h.Report, d *h.Driver, ev *regEvents, base int, ops []st
 		}
 		preS, preB := w.snapshot()
 		w.ev.takeKeys()
+		var stepKeys []string // the keyed subscription-change events of this step (sub / unsub)
 		w.out = nil
 		w.panicky = ""
 		if w.td != nil {
@@ -764,6 +765,18 @@ func runRegHistoryTd(r *h.Report, d *h.Driver, ev *regEvents, base int, ops []st
 				kind = "bind:" + impl
 			}
 			evs := w.ev.take()
+			stepKeys = w.ev.takeKeys()
+			if f[0] == "sub" {
+				// SPEC (C08): a granted request is announced by ONE add event that names the requesting device, the client
+				// feature and the server feature; a refused one by none
+				wantK := "[]"
+				if impl == "ok" {
+					wantK = fmt.Sprintf("[+%d:%s/%d->%s/%d]", p, ce, cf, se, sf)
+				}
+				if regList(stepKeys) != wantK {
+					r.SpecFail("C08/change-event-names-wrong-pair", done, fmt.Sprintf("%s answered %s, subscription-change events %v, expected %s", op, impl, stepKeys, wantK))
+				}
+			}
 			want := h.B2i(impl == "ok")
 			if evs[f[0]+"+"] != want {
 				r.SpecFail("C"+map[string]string{"sub": "08", "bind": "09"}[f[0]]+"/change-event", done, fmt.Sprintf("%s answered %s, %d add events", op, impl, evs[f[0]+"+"]))
@@ -828,6 +841,17 @@ func runRegHistoryTd(r *h.Report, d *h.Driver, ev *regEvents, base int, ops []st
 				r.SpecFail(prop+"/delete-touches-other-registry", done, op)
 			}
 			w.ev.take()
+			stepKeys = w.ev.takeKeys()
+			if f[0] == "unsub" {
+				// SPEC (C08): a successful delete is announced by ONE remove event naming the addressed pair, a failed one by none
+				wantK := "[]"
+				if impl == "ok" {
+					wantK = fmt.Sprintf("[-%d:%s/%d->%s/%d]", p, ce, cf, se, sf)
+				}
+				if regList(stepKeys) != wantK {
+					r.SpecFail("C08/change-event-names-wrong-pair", done, fmt.Sprintf("%s answered %s, subscription-change events %v, expected %s", op, impl, stepKeys, wantK))
+				}
+			}
 			regJudgeInvariants(r, done, postS, postB)
 			st.delAll++
 			st.delOk += h.B2i(exists)
@@ -1355,8 +1379,7 @@ func runRegHistoryTd(r *h.Report, d *h.Driver, ev *regEvents, base int, ops []st
 			if (f[0] == "sub" || f[0] == "unsub") && w.td == nil {
 				// the subscription-change events of the call, with the device, client and server feature each names,
 				// against Spine.RegEv.callEvents
-				w.settle()
-				ie, me := regList(w.ev.takeKeys()), d.Ask("events")
+				ie, me := regList(stepKeys), d.Ask("events")
 				if ie != me {
 					r.Mismatch(done, ie, me, "subscription-change events of "+op)
 					return false
